@@ -4,6 +4,12 @@ Model of `Registry.HashLabels` up to the hash function: the byte strings that ar
 label *names* and for the label *values*. The registry identifies vectors by the names hash and series by
 the values hash; the models identify them by the label names / the label set. That abstraction is sound iff
 these encodings are injective (and FNV-64a does not collide, which is assumed).
+
+The hash function itself (`hash/fnv`'s `New64a`: offset basis, then per byte xor and multiply by the
+FNV prime, modulo 2^64) is modelled too, so that the correspondence stream `hashlabels` compares the two
+64-bit hashes of the implementation with the model's bit for bit; what the theorems can say about it is
+in SE/Proofs/HashFnv.lean (each step is a bijection of the state; the values hash continues the names
+hash; inputs that differ in one byte never collide).
 -/
 namespace SE
 
@@ -19,5 +25,24 @@ def valueBuf (l : Labels) : Bytes := sepByte :: l.sorted.flatMap fun kv => kv.2 
 def namesHashInput (l : Labels) : Bytes := nameBuf l
 /-- input of the values hash (the hasher is not reset in between) -/
 def valuesHashInput (l : Labels) : Bytes := nameBuf l ++ valueBuf l
+
+/-! ### FNV-64a (`hash/fnv`, `sum64a.Write`) -/
+
+def fnvOffset : BitVec 64 := 14695981039346656037#64    -- offset64
+def fnvPrime : BitVec 64 := 1099511628211#64             -- prime64
+
+/-- `hash ^= uint64(c); hash *= prime64` -/
+def fnvStep (h : BitVec 64) (c : UInt8) : BitVec 64 := (h ^^^ BitVec.ofNat 64 c.toNat) * fnvPrime
+
+/-- `Write` on a hasher whose state is `h` -/
+def fnvFrom (h : BitVec 64) (bs : Bytes) : BitVec 64 := bs.foldl fnvStep h
+
+/-- `Reset` followed by one `Write` and `Sum64` -/
+def fnv64a (bs : Bytes) : BitVec 64 := fnvFrom fnvOffset bs
+
+/-- `lh.Names`: the hasher is reset, then fed `NameBuf` -/
+def namesHash (l : Labels) : BitVec 64 := fnv64a (nameBuf l)
+/-- `lh.Values`: the same hasher, NOT reset, is then fed `ValueBuf` -/
+def valuesHash (l : Labels) : BitVec 64 := fnvFrom (namesHash l) (valueBuf l)
 
 end SE
